@@ -435,13 +435,31 @@ func Check[C any](r *Run, gen func(*rapid.T) C, prop func(C, *Obs) error) {
 		}
 		return
 	}
+	// Shrinking budget: rapid checks its own -rapid.shrinktime only between passes, and one pass can evaluate the
+	// property dozens of times; when a failing evaluation costs seconds (hang deadlines) that is tens of minutes.
+	// Once the budget since the first failure is spent, candidates are no longer executed: a case already known
+	// to fail answers with its recorded error (so rapid's final re-run of the minimal case agrees), any other
+	// candidate is answered "passes" (rapid keeps the smallest failing case found so far).
+	budget := time.Duration(envInt("VERIF_SHRINK_BUDGET_S", 60)) * time.Second
+	var firstFail time.Time
+	failed := map[uint64]string{}
 	rapid.Check(t, func(rt *rapid.T) {
 		c := gen(rt)
+		if !firstFail.IsZero() && time.Since(firstFail) > budget {
+			if msg, ok := failed[hashOf(c)]; ok {
+				rt.Fatalf("%s", msg)
+			}
+			return
+		}
 		o := &Obs{}
 		r.markCurrent(c)
 		err := Guard(func() error { return prop(c, o) })
 		r.Record(c, o, err)
 		if err != nil {
+			if firstFail.IsZero() {
+				firstFail = time.Now()
+			}
+			failed[hashOf(c)] = err.Error()
 			rt.Fatalf("%v", err)
 		}
 	})
